@@ -542,8 +542,16 @@ def desc_signature(d):
     return sig
 
 
-def c11_case(acc, sp, kw, rng, tier, xproc=None):
+def c11_case(acc, sp, kw, rng, tier, xproc=None, twin=False):
     z = SIZES[tier]
+    if not twin and kw.get("route") in ("yaml", "dict") and \
+            rng.random() < 0.5:
+        # first the scenario, then - right after it in the same process - a
+        # twin of the same shape (renamed, re-ordered or redefined)
+        from ..twins import any_twin
+        c11_case(acc, sp, kw, rng, "quick", None, twin=True)
+        sp = any_twin(sp, rng)
+        acc.count("twins_enumerated_right_after_original")
     F = Subject(sp, flat_actions=True, **kw)
     W = lambda what: wit(sp, kw, F.modes, what)     # noqa
     mine = flat_descriptors(sp)
